@@ -527,6 +527,7 @@ class Client(base_client.BaseClient):
             self.logger.info('Waiting for write loop task to end')
             self.write_loop_task.join()
         if self.state == 'connected' and self.queue is queue:
+            self.state = 'disconnecting'
             self._trigger_event('disconnect', self.reason.TRANSPORT_ERROR,
                                 run_async=False)
             try:
@@ -580,6 +581,7 @@ class Client(base_client.BaseClient):
             self.logger.info('Waiting for write loop task to end')
             self.write_loop_task.join()
         if self.state == 'connected' and self.queue is queue:
+            self.state = 'disconnecting'
             self._trigger_event('disconnect', self.reason.TRANSPORT_ERROR,
                                 run_async=False)
             try:
